@@ -125,6 +125,42 @@ PROPS = {
         trust=[],
         design_ref="DESIGN.md §5 C08",
     ),
+    "C07": dict(
+        kani=["c07_transform_frame"],
+        verus=[],
+        prefixes=["C07."],
+        category="proof",
+        trust=["A1 verifiers: Kani 0.68 / CBMC 6.11, rustc",
+               "std::fs::{copy, remove_file, remove_dir_all} are stubs recording their path arguments (each may fail)",
+               "transform::parse_command (nom + regex; Kani cannot compile it) is replaced by its assumed contract: it calls the "
+               "substitution closure for any subset/sequence of $IN, $OUT, other variables",
+               "Transform::random_tmp_file_name and Transform::output (uuid / hash128 formatting) are stubbed to fixed names under tmp_dir",
+               "what the spawned transform program does, read-only open flags, the cache location and log_script/--dry-run are NOT covered",
+               "A12 instrumentation is add-only and cfg(kani)-guarded"],
+        design_ref="DESIGN.md §5 C07",
+    ),
+    "C12": dict(
+        kani=["c12_hasher_flow"],
+        verus=["cache_get_guard"],
+        prefixes=["C12."],
+        category="proof",
+        trust=["A1 verifiers", "HashCache::get / put are replaced by a one-slot ghost cache (get's validation `if` is the Verus unit cache_get_guard)",
+               "file_hash::<H> (thread_local buffer: not compilable by Kani) is replaced by a ghost hash; FileMetadata::new by fabricated metadata",
+               "sled/typed_sled map semantics, the millisecond conversion of mtime, tree naming by algorithm/transform are NOT covered"],
+        design_ref="DESIGN.md §5 C12",
+    ),
+    "C15": dict(
+        kani=["c15_hash_file_ok", "c15_hash_file_notfound", "c15_hash_file_denied", "c15_hash_file_other",
+              "c15_hash_transformed_ok", "c15_hash_transformed_notfound", "c15_hash_transformed_denied", "c15_hash_transformed_other"],
+        verus=[],
+        prefixes=["C15."],
+        category="proof",
+        trust=["A1 verifiers", "FileHasher::hash_file / hash_transformed are replaced by stubs returning Ok / Err(NotFound) / Err(PermissionDenied) / Err(Other): "
+               "only the error mapping of the *_or_log_err wrappers is verified",
+               "that all other files are grouped as if the failed one had not been there lives in rehash (threads) - NOT covered",
+               "alloc::fmt::format and Path::to_escaped_string stubbed (message text)"],
+        design_ref="DESIGN.md §5 C15",
+    ),
     "C06": dict(
         kani=["c06_rf_over_contract", "c06_rf_under_contract", "c06_group_filter"],
         verus=["filegroup_counts"],
@@ -174,6 +210,7 @@ REAL_REPLAY = [
     ("c20_lock_first_reflink", "C20.lock_first.", "lock", "reflink"),
     ("c20_lock_first_move", "C20.lock_first.", "lock", "move"),
     ("c06_rf_over_contract", "C06.rf_over.contract", "transform_filter", None),
+    ("c07_transform_frame", "C07.transform_frame.", "transform_frame", None),
     ("filegroup_counts", "C06.final_filter.group_transformed", "transform_filter", None),
 ]
 
